@@ -103,7 +103,12 @@ func refValid(p *pre, b *blockchain.Block) (bool, string) {
 		return false, "aggregate-commit"
 	}
 	// signature by the slot's generator over all header fields for this chain ID
-	msg := ref.Hash(append(append([]byte("LSK_BH_"), cfg.ChainID...), h.SigningBytes()...))
+	// (the signed bytes are re-encoded by the reference codec, not taken from the engine's SigningBytes)
+	signed := ref.HeaderSigningBytes(ref.HeaderFields{Version: h.Version, Timestamp: h.Timestamp, Height: h.Height, PreviousBlockID: h.PreviousBlockID,
+		GeneratorAddress: h.GeneratorAddress, TransactionRoot: h.TransactionRoot, AssetRoot: h.AssetRoot, EventRoot: h.EventRoot, StateRoot: h.StateRoot,
+		MaxHeightPrevoted: h.MaxHeightPrevoted, MaxHeightGenerated: h.MaxHeightGenerated, ImpliesMaxPrevotes: h.ImpliesMaxPrevotes, ValidatorsHash: h.ValidatorsHash,
+		AggHeight: h.AggregateCommit.Height, AggBits: h.AggregateCommit.AggregationBits, AggSignature: h.AggregateCommit.CertificateSignature})
+	msg := ref.Hash(append(append([]byte("LSK_BH_"), cfg.ChainID...), signed...))
 	if !ed25519.Verify(ed25519.PublicKey(gen.EdPub), msg, h.Signature) {
 		return false, "signature"
 	}
@@ -205,6 +210,24 @@ func mutants() []mutant {
 	add("timestamp=current-slot", 1, func(b *blockchain.Block, p *pre) {
 		b.Header.Timestamp = p.n.Slot.GetSlotTime(p.n.Cfg.CurrentSlot)
 	})
+	// the same timing mutations carried out consistently: the header names the rightful generator of the new slot
+	// and that generator's own largest height, so that only the slot rule decides (re-sealed form signs with its key)
+	retime := func(b *blockchain.Block, p *pre, ts uint32) {
+		b.Header.Timestamp = ts
+		slot := int(int64(ts-p.n.Genesis.Header.Timestamp) / int64(p.n.Cfg.BlockTime))
+		g := node.KeysOf(p.genList[slot%len(p.genList)])
+		b.Header.GeneratorAddress = g.Address
+		b.Header.MaxHeightGenerated = 0
+		if rc, ok := p.recent[string(g.Address)]; ok {
+			b.Header.MaxHeightGenerated = rc.Height
+		}
+	}
+	add("retimed:parent+1s-same-slot", 1, func(b *blockchain.Block, p *pre) { retime(b, p, p.tip.Timestamp+1) })
+	add("retimed:last-second-of-parent-slot", 1, func(b *blockchain.Block, p *pre) {
+		retime(b, p, p.n.Slot.GetSlotTime(p.n.Slot.GetSlotNumber(p.tip.Timestamp)+1)-1)
+	})
+	add("retimed:current-slot", 1, func(b *blockchain.Block, p *pre) { retime(b, p, p.n.Slot.GetSlotTime(p.n.Cfg.CurrentSlot)) })
+	add("retimed:first-future-slot", 1, func(b *blockchain.Block, p *pre) { retime(b, p, p.n.Slot.GetSlotTime(p.n.Cfg.CurrentSlot+1)) })
 	add("height-1", 1, func(b *blockchain.Block, p *pre) { b.Header.Height-- })
 	add("height+1", 1, func(b *blockchain.Block, p *pre) { b.Header.Height++ })
 	add("height=0", 1, func(b *blockchain.Block, p *pre) { b.Header.Height = 0 })
